@@ -190,7 +190,11 @@ func (v *Voucher) OwnerPublicKey() (crypto.PublicKey, error) {
 	if len(v.Entries) == 0 {
 		return v.Header.Val.ManufacturerKey.Public()
 	}
-	return v.Entries[len(v.Entries)-1].Payload.Val.PublicKey.Public()
+	last := v.Entries[len(v.Entries)-1].Payload
+	if last == nil {
+		return nil, errors.New("last voucher entry has no payload")
+	}
+	return last.Val.PublicKey.Public()
 }
 
 // VerifyHeader checks that the OVHeader was not modified by comparing the HMAC
@@ -300,6 +304,9 @@ func (v *Voucher) VerifyEntries() error {
 
 	// The algorithm used for hashing entries should always match the one used
 	// during the very first extension
+	if v.Entries[0].Payload == nil {
+		return errors.New("voucher entry 0 has no payload")
+	}
 	alg := v.Entries[0].Payload.Val.PreviousHash.Algorithm
 
 	var initialHash hash.Hash
@@ -332,6 +339,9 @@ func (v *Voucher) VerifyEntries() error {
 // Validate each entry recursively
 func validateNextEntry(prevOwnerKey crypto.PublicKey, alg protocol.HashAlg, prevHash hash.Hash, headerInfoHash []byte, i int, entries []cose.Sign1Tag[VoucherEntryPayload, []byte]) error {
 	entry := entries[0].Untag()
+	if entry.Payload == nil {
+		return fmt.Errorf("voucher entry %d has no payload", i)
+	}
 
 	// Check payload has a valid COSE signature from the previous owner key
 	if ok, err := entry.Verify(prevOwnerKey, nil, nil); err != nil {
